@@ -30,6 +30,7 @@ const (
 	vpFileWrite
 	vpFileFlush
 	vpFileClose
+	vpGCRecheck
 )
 
 func verifYield(point int, obj unsafe.Pointer) {}
